@@ -237,6 +237,16 @@ namespace trompeloeil {
     sequence_matcher const* m)
   noexcept
   {
+    bool pending = false;
+    for (auto const& e : matchers)
+    {
+      if (&e == m)
+      {
+        pending = true;
+        break;
+      }
+    }
+    if (!pending) return; // already passed, it has no predecessors left
     while (!matchers.empty())
     {
       auto first = &*matchers.begin();
